@@ -1,6 +1,7 @@
 package static
 
 import (
+	"fmt"
 	"net/http"
 	"path"
 	"path/filepath"
@@ -31,7 +32,7 @@ var relPaths = []string{
 	"/deep/x/y/z.txt", "/deep/x/y", "/deep", "/idxdir", "/idxdir/", "/home.htm", "/sp ace.txt", "/dot..file", "/.env", "/app.js", "/ity/page.html",
 	"/missing.txt", "/sub/missing", "/a.txt/", "/a.txt/x", "/devnull", "/public/a.txt", "/sub/public/nested.txt", "/pre/fix/a.txt", "/public%2Fa.txt", "/%61.txt", "/sub%2Fb.txt", "/%2e%2e%2foutside%2fsecret.txt", "/secret.txt", "/outside/a.txt",
 	"/../outside/secret.txt", "/sub/../../outside/secret.txt", "/../../../outside/secret.txt", "/../pubX/look.txt", "/../secret.txt", "/..", "/../", "/../pub.env",
-	"/sub/../a.txt", "/sub/./b.txt", "/./a.txt", "//a.txt", "//sub", "//sub/", "/sub//b.txt", "///", "/a.txt\x00", "/\x00", "/sub/\x00/b.txt", "/..\\outside\\secret.txt",
+	"/sub/../a.txt", "/sub/./b.txt", "/./a.txt", "//a.txt", "//sub", "//sub/", "/sub//", "/a.txt//", "/sub//b.txt", "///", "/a.txt\x00", "/\x00", "/sub/\x00/b.txt", "/..\\outside\\secret.txt",
 	"/%2e%2e/outside/secret.txt", "/...", "/sub/..", "/sub/../", "/deep/x/../../a.txt", "/deep/../../outside/a.txt", "/outside/secret.txt", "/pub/a.txt",
 }
 
@@ -472,6 +473,28 @@ func (Engine) Run(t *tape.Tape, o eng.Opts) *eng.Result {
 			case isDir && strings.HasSuffix(q.Path, "/"):
 				if fi := d.files[strings.TrimPrefix(path.Join("/", want, index), "/")]; fi == nil || fi.spec.isDir {
 					viol("answered-directory-without-index", "Static answered "+itoa(staticStatus)+" for a directory that has no index file\n  "+desc)
+				}
+			}
+		}
+		// A plain 200 carries a whole file, not a piece of one (pieces are what 206 and faults produce).
+		if staticStatus == 200 && q.Method == "GET" && !info.hasRange && len(q.WPlan) == 0 && !readFault && len(body) >= 6 {
+			whole := false
+			for _, rel := range d.order {
+				for _, v := range d.files[rel].versions {
+					if len(v) == len(body) && string(v) == string(body) {
+						whole = true
+					}
+				}
+			}
+			if !whole {
+				viol("partial-200", "a 200 answer without Range carries "+itoa(len(body))+" bytes that are not the whole content of any version of a file in the directory\n  "+desc)
+			}
+		}
+		if staticStatus == 206 && q.Method == "GET" && len(q.WPlan) == 0 && !readFault {
+			if cr := q.W.Sent.Get("Content-Range"); strings.HasPrefix(cr, "bytes ") {
+				var a, b, n int
+				if k, _ := fmt.Sscanf(cr, "bytes %d-%d/%d", &a, &b, &n); k == 3 && b-a+1 != staticBody {
+					viol("content-range-mismatch", "Content-Range "+quote(cr)+" announces "+itoa(b-a+1)+" bytes but "+itoa(staticBody)+" were sent\n  "+desc)
 				}
 			}
 		}
